@@ -94,6 +94,8 @@ type Contract struct {
 	Opts     map[string]string
 	Reveal   []string // opaque spec functions whose definitions this function's proof may use
 	RevealAsserts []string
+	DeadReturns []int // source-order ordinals of return statements that must be unreachable
+	Uses     []string // lemmas assumed as hypotheses in this function's obligations
 }
 
 type GhostDecl struct {
@@ -108,6 +110,7 @@ type SpecFunc struct {
 	Result string
 	Body   SExpr // nil => uninterpreted
 	Pkg    string
+	Rec    bool // recursive definition: emitted as define-fun-rec (always visible, unfolded by the solver on demand)
 	Opaque bool // declared as a function symbol with a definitional axiom instead of being macro-expanded
 }
 
@@ -117,6 +120,7 @@ type Lemma struct {
 	E     SExpr
 	Text  string
 	Reveal []string
+	Induct string   // induction variable (natural-number induction: base 0, step i -> i+1)
 	Uses   []string // other lemmas (proved separately) assumed as hypotheses
 	Axiom bool // trusted, not proved
 	Pkg   string
@@ -144,7 +148,7 @@ type ContractFile struct {
 var clauseKeywords = map[string]bool{
 	"func": true, "requires": true, "ensures": true, "modifies": true, "loop": true,
 	"let": true, "pure": true, "spec": true, "lemma": true, "axiom": true, "type": true,
-	"reveal": true, "reveal-asserts": true, "at": true, "trusted": true, "inline": true, "ghost": true, "props": true, "noframe": true, "opt": true,
+	"dead": true, "uses": true, "reveal": true, "reveal-asserts": true, "at": true, "trusted": true, "inline": true, "ghost": true, "props": true, "noframe": true, "opt": true,
 }
 
 // ParseContractFile reads the //@ lines of a file.
@@ -241,6 +245,16 @@ func ParseContractFile(path, pkgPath string) (*ContractFile, error) {
 			cur.Lets = append(cur.Lets, LetDef{strings.TrimSpace(rest[:i]), e})
 		case "reveal":
 			cur.Reveal = append(cur.Reveal, strings.Fields(strings.ReplaceAll(rest, ",", " "))...)
+		case "dead":
+			// dead return N : the N-th return statement (source order) is unreachable
+			w1, r1 := splitWord(rest)
+			n, err := strconv.Atoi(strings.TrimSpace(r1))
+			if w1 != "return" || err != nil {
+				return nil, fail(fmt.Errorf("expected: dead return N"))
+			}
+			cur.DeadReturns = append(cur.DeadReturns, n)
+		case "uses":
+			cur.Uses = append(cur.Uses, strings.Fields(strings.ReplaceAll(rest, ",", " "))...)
 		case "reveal-asserts":
 			// definitions visible only to `assert` obligations (staging lemmas), hidden from
 			// invariant-preservation and postcondition obligations
@@ -362,8 +376,10 @@ func ParseContractFile(path, pkgPath string) (*ContractFile, error) {
 			mode := ""
 			for _, h := range head[1:] {
 				switch {
-				case h == "props" || h == "reveal" || h == "uses":
+				case h == "props" || h == "reveal" || h == "uses" || h == "induct":
 					mode = h
+				case mode == "induct":
+					lm.Induct = h
 				case mode == "uses":
 					lm.Uses = append(lm.Uses, h)
 				case mode == "props":
@@ -412,7 +428,13 @@ func splitWord(s string) (string, string) {
 func parseSpecFunc(s string) (*SpecFunc, error) {
 	kw, rest := splitWord(s)
 	opaque := false
+	rec := false
 	if kw == "opaque" {
+		opaque = true
+		kw, rest = splitWord(rest)
+	}
+	if kw == "rec" {
+		rec = true
 		opaque = true
 		kw, rest = splitWord(rest)
 	}
@@ -427,7 +449,7 @@ func parseSpecFunc(s string) (*SpecFunc, error) {
 	if cl < op {
 		return nil, fmt.Errorf("spec func: missing )")
 	}
-	sf := &SpecFunc{Name: strings.TrimSpace(rest[:op]), Opaque: opaque}
+	sf := &SpecFunc{Name: strings.TrimSpace(rest[:op]), Opaque: opaque, Rec: rec}
 	params := strings.TrimSpace(rest[op+1 : cl])
 	if params != "" {
 		for _, p := range strings.Split(params, ",") {
